@@ -87,6 +87,7 @@ pub fn run(seed: u64, n: usize, outdir: &str, _corpus: Option<&str>) -> std::io:
     for i in 0..n {
         let sub = master.next();
         let mut rng = Rng(sub);
+        let mut real_tokens: Vec<(String, String)> = vec![];
         let (kind, text): (u8, String) = if i % 4 != 3 {
             (0, gen_corpus(&mut rng))
         } else {
@@ -101,19 +102,21 @@ pub fn run(seed: u64, n: usize, outdir: &str, _corpus: Option<&str>) -> std::io:
                     t.and_then(|t| {
                         std::panic::catch_unwind(std::panic::AssertUnwindSafe(|| {
                             let mut w = t.new_worker();
+                            let mut toks: Vec<(String, String)> = vec![];
                             w.reset_sentence(&sent);
                             w.tokenize();
                             // exactly what tokenize/src/main.rs prints in the mecab output mode
                             let mut o = String::new();
                             for k in 0..w.num_tokens() {
                                 let tk = w.token(k);
+                                toks.push((tk.surface().to_string(), tk.feature().to_string()));
                                 o.push_str(tk.surface());
                                 o.push('\t');
                                 o.push_str(tk.feature());
                                 o.push('\n');
                             }
                             o.push_str("EOS\n");
-                            o
+                            (o, toks)
                         }))
                         .ok()
                     })
@@ -121,7 +124,7 @@ pub fn run(seed: u64, n: usize, outdir: &str, _corpus: Option<&str>) -> std::io:
                 _ => None,
             };
             match out {
-                Some(o) => (1, o),
+                Some((o, toks)) => { real_tokens = toks; (1, o) }
                 None => (0, gen_corpus(&mut rng)),
             }
         };
@@ -138,8 +141,9 @@ pub fn run(seed: u64, n: usize, outdir: &str, _corpus: Option<&str>) -> std::io:
             Outcome::Panic => Outcome::Panic,
         };
         let term = format!(
-            "(Build_c19case {} {} {} {} {})",
-            kind, cstr(&text), cres(&p, cexs), cres(&wtxt, |s| cstr(s)), cres(&rp, cexs)
+            "(Build_c19case {} {} {} {} {} {})",
+            kind, cstr(&text), cres(&p, cexs), cres(&wtxt, |s| cstr(s)), cres(&rp, cexs),
+            clist(&real_tokens, |(a, b)| format!("({}, {})", cstr(a), cstr(b)))
         );
         *dist.entry(format!("kind_{}", if kind == 0 { "corpus" } else { "tokenizer_output" })).or_default() += 1;
         *dist.entry(format!("parse_{}", p.kind())).or_default() += 1;
